@@ -324,18 +324,31 @@ def describe(obj, names, reg):
     return {'isType': is_type, 'inst': inst, 'mro': mro, 'meta': meta}
 
 
+BUILTIN_METHOD_TYPES = ('wrapper_descriptor', 'method_descriptor', 'classmethod_descriptor',
+                        'builtin_function_or_method')
+
+
+def slot_of(t, n):
+    """Slot string (mirrors Model/ObjModel.Slot): what `_PyType_Lookup(t, n)` finds, classified by the
+    harness itself from the class dictionaries (never through jedi)"""
+    for k in t.__mro__:
+        if n in vars(k):
+            f = vars(k)[n]
+            if f is None:
+                return 'none'
+            if isinstance(f, types.FunctionType):
+                # calling a generator function runs none of its body (user code starts at next())
+                return 'other' if f.__code__.co_flags & 0x20 else 'user'
+            if type(f).__name__ in BUILTIN_METHOD_TYPES and type(f).__module__ == 'builtins':
+                return 'b:' + type(f).__name__
+            return 'other'
+    return 'absent'
+
+
 def describe_ty(obj, reg):
-    """Ty JSON: exact type; for user types which protocol methods resolve to python functions"""
+    """Ty JSON: exact type; for user types what the special methods resolve to"""
     t = type(obj)
     if t.__module__ == 'builtins':
         return {'builtin': t.__name__}
-
-    def user(n):
-        for k in t.__mro__:
-            if n in vars(k):
-                f = vars(k)[n]
-                # calling a generator function runs none of its body (user code starts at next())
-                return isinstance(f, types.FunctionType) and not (f.__code__.co_flags & 0x20)
-        return False
-    return {'user': reg.id(t), 'getitem': user('__getitem__'), 'iter': user('__iter__'),
-            'next': user('__next__'), 'bool': user('__bool__'), 'len': user('__len__')}
+    return {'user': reg.id(t), 'getitem': slot_of(t, '__getitem__'), 'iter': slot_of(t, '__iter__'),
+            'next': slot_of(t, '__next__'), 'bool': slot_of(t, '__bool__'), 'len': slot_of(t, '__len__')}
